@@ -52,16 +52,85 @@ func genC15(t *rapid.T) interface{} {
 		n = rapid.IntRange(1, 30).Draw(t, "nops2")
 	}
 	c := &C15Case{}
+	// The generator keeps its own model of the pool (every operation adds exactly one value), so
+	// indices are exact and it can aim at the shapes where shared backing stores show: sets built
+	// with spare capacity (NewIntSet with duplicate arguments), sibling results of one parent, and
+	// unions / inserts that only append (argument entirely above the receiver).
+	sets := [][]int{{}, {}}
+	nm := 2
+	lastSet, lastMap := 1, 1
+	pick := func(n, last int, label string) int {
+		switch rapid.IntRange(0, 3).Draw(t, label+"how") {
+		case 0:
+			return last
+		case 1:
+			return n - 1 - rapid.IntRange(0, min(3, n-1)).Draw(t, label+"recent")
+		default:
+			return rapid.IntRange(0, n-1).Draw(t, label)
+		}
+	}
+	norm := func(vs []int) []int {
+		m := map[int]bool{}
+		for _, v := range vs {
+			m[v] = true
+		}
+		return modelSetList(m)
+	}
 	for i := 0; i < n; i++ {
-		op := SetOp{Op: rapid.SampledFrom([]string{"newset", "insert", "insert", "insert", "union", "union", "newmap", "inc", "inc", "filter"}).Draw(t, "op")}
-		op.I = rapid.IntRange(0, 40).Draw(t, "i")
-		op.J = rapid.IntRange(0, 40).Draw(t, "j")
+		op := SetOp{Op: rapid.SampledFrom([]string{"newset", "newset", "insert", "insert", "insert", "union", "union", "union", "newmap", "inc", "inc", "filter"}).Draw(t, "op")}
 		op.V = val.Draw(t, "v")
 		switch op.Op {
 		case "newset":
-			op.Vals = rapid.SliceOfN(val, 0, 6).Draw(t, "vals")
+			switch rapid.IntRange(0, 3).Draw(t, "setkind") {
+			case 0: // low values with duplicates: spare capacity
+				k := rapid.IntRange(1, 2).Draw(t, "distinct")
+				for j := 0; j < k; j++ {
+					op.Vals = append(op.Vals, rapid.IntRange(-2, 2).Draw(t, "low"))
+				}
+				for j := rapid.IntRange(1, 3).Draw(t, "dups"); j > 0; j-- {
+					op.Vals = append(op.Vals, op.Vals[rapid.IntRange(0, k-1).Draw(t, "dupof")])
+				}
+			case 1: // one or two high values
+				op.Vals = rapid.SliceOfN(rapid.IntRange(4, 8), 1, 2).Draw(t, "high")
+			default:
+				op.Vals = rapid.SliceOfN(val, 0, 6).Draw(t, "vals")
+			}
+			sets = append(sets, norm(op.Vals))
+		case "insert":
+			op.I = pick(len(sets), lastSet, "i")
+			lastSet = op.I
+			if rapid.Bool().Draw(t, "above") && len(sets[op.I]) > 0 && sets[op.I][len(sets[op.I])-1] < 8 {
+				op.V = rapid.IntRange(sets[op.I][len(sets[op.I])-1]+1, 8).Draw(t, "vabove")
+			}
+			sets = append(sets, norm(append(append([]int{}, sets[op.I]...), op.V)))
+		case "union":
+			op.I = pick(len(sets), lastSet, "i")
+			op.J = pick(len(sets), lastSet, "j")
+			if rapid.Bool().Draw(t, "disjoint") && len(sets[op.I]) > 0 {
+				var above []int
+				for j, sj := range sets {
+					if len(sj) > 0 && sj[0] > sets[op.I][len(sets[op.I])-1] {
+						above = append(above, j)
+					}
+				}
+				if len(above) > 0 {
+					op.J = above[rapid.IntRange(0, len(above)-1).Draw(t, "jabove")]
+				}
+			}
+			lastSet = op.I
+			sets = append(sets, norm(append(append([]int{}, sets[op.I]...), sets[op.J]...)))
 		case "newmap":
 			op.Map = rapid.MapOfN(val, rapid.IntRange(0, 3), 0, 4).Draw(t, "map")
+			nm++
+		case "inc":
+			op.I = pick(nm, lastMap, "i")
+			lastMap = op.I
+			nm++
+		case "filter":
+			op.I = pick(nm, lastMap, "i")
+			op.J = pick(len(sets), lastSet, "j")
+			lastMap = op.I
+			nm++
 		}
 		c.Ops = append(c.Ops, op)
 	}
@@ -89,7 +158,9 @@ func checkC15(ci interface{}, st *Stats) error {
 	msets := []map[int]bool{{}, {}}
 	maps := []data.IntMap{data.EmptyIntMap, data.NewIntMap(nil)}
 	mmaps := []map[int]int{{}, {}}
-	setKids := map[int]int{} // how many descendants a pooled set has
+	spare := map[int]int{}      // spare capacity a set is known to have (NewIntSet allocates for every argument)
+	usedSpare := map[int]bool{} // a union could already have appended into that spare capacity
+	setKids := map[int]int{}    // how many descendants a pooled set has
 	mapKids := map[int]int{}
 	sharedOp := false
 	invariant := func(step int, what string) error {
@@ -151,6 +222,7 @@ func checkC15(ci interface{}, st *Stats) error {
 			for _, v := range op.Vals {
 				m[v] = true
 			}
+			spare[len(sets)-1] = len(op.Vals) - len(m)
 			msets = append(msets, m)
 		case "insert":
 			if setKids[i] > 0 {
@@ -170,6 +242,16 @@ func checkC15(ci interface{}, st *Stats) error {
 			}
 			setKids[i]++
 			setKids[j]++
+			if li, lj := modelSetList(msets[i]), modelSetList(msets[j]); len(li) > 0 && len(lj) > 0 && li[len(li)-1] < lj[0] {
+				st.Class("union of a set with a set entirely above it")
+				if spare[i] >= len(lj) {
+					st.Class("... whose receiver has spare capacity for it (NewIntSet with duplicates)")
+					if usedSpare[i] {
+						st.Class("... for the second time on that receiver")
+					}
+					usedSpare[i] = true
+				}
+			}
 			sets = append(sets, sets[i].Union(sets[j]))
 			m := map[int]bool{}
 			for k := range msets[i] {
